@@ -223,7 +223,14 @@ func (e *Env) index(v Val, i string) Val {
 	switch {
 	case v.K == KSlice:
 		et := e.elemType(v)
-		return vc.load(e.st, &Addr{Kind: AElem, Reg: v.Reg, Idx: Add(v.Off, i), Root: et, T: et})
+		r := vc.load(e.st, &Addr{Kind: AElem, Reg: v.Reg, Idx: Add(v.Off, i), Root: et, T: et})
+		if b, ok := et.Underlying().(*types.Basic); ok && b.Kind() == types.Uint8 && r.K == KInt {
+			// spec-level byte reads are clamped to 0..255: identical on every real state (the byte heap only ever holds bytes),
+			// and specs then need no range hypotheses
+			vc.needClamp()
+			r.S = app("bclamp", r.S)
+		}
+		return r
 	case e.isStr(v):
 		vc.needStr()
 		return IntV(app("sbyte", v.S, i), types.Typ[types.Uint8])
@@ -420,6 +427,8 @@ func specSort(s string) string {
 		return "Int"
 	case "Bool":
 		return "Bool"
+	case "Arr":
+		return "(Array Int Int)"
 	case "Set":
 		return "(Array Int Bool)"
 	case "Map":
@@ -908,6 +917,14 @@ func (e *Env) quant(kind string, n *ast.CallExpr) Val {
 	return BoolV(full)
 }
 
+func (vc *VC) needClamp() {
+	if vc.declSet["bclamp"] {
+		return
+	}
+	vc.declSet["bclamp"] = true
+	vc.macros = append(vc.macros, "(define-fun bclamp ((x Int)) Int (ite (and (<= 0 x) (<= x 255)) x 0))")
+}
+
 func (vc *VC) needSid() {
 	sorts := make([]string, 16)
 	for k := range sorts {
@@ -1198,6 +1215,14 @@ func (e *Env) callExpr(n *ast.CallExpr) Val {
 		closed := fmt.Sprintf("(forall ((y Int) (i Int)) (! (=> (and (select %s y) (<= 0 i) (< i (u_nparents y))) (select %s (u_parentOf y i))) :pattern ((select %s (u_parentOf y i)))))", S, S, S)
 		concl := fmt.Sprintf("(forall ((x Int)) (! (=> (u_anc x %s) (select %s x)) :pattern ((u_anc x %s))))", c, S, c)
 		return BoolV(Imp(And(Sel(S, c), closed), concl))
+	case "cmp3":
+		// cmp3(x, y): what bytes.Compare(x, y) returns, as a function of the two byte windows
+		x, y := arg(0), arg(1)
+		if x.K != KSlice || y.K != KSlice {
+			panic(specErr("%s: cmp3 needs two byte slices", e.what))
+		}
+		h := vc.heapGet(e.st, byteHeap, arr2Sort("Int"))
+		return IntV(vc.cmp3(Sel(h, x.Reg), x.Off, x.Len, Sel(h, y.Reg), y.Off, y.Len), nil)
 	case "sumlt":
 		// strict total order on checksum ids: the byte-wise (lexicographic) order of the 16 bytes
 		return BoolV(vc.sumLess(arg(0).S, arg(1).S))
@@ -1258,6 +1283,34 @@ func (e *Env) callExpr(n *ast.CallExpr) Val {
 	}
 	if d, ok := vc.W.DB.Defs[fname]; ok {
 		switch d.Kind {
+		case "opaque":
+			// an opaque predicate: an uninterpreted Boolean of what its arguments denote; its definition is available only
+			// where a contract says "reveal name(args)" (keeps quantified definitions out of proofs that do not need them)
+			if len(d.Params) != len(n.Args) {
+				panic(specErr("%s: %s expects %d arguments", e.what, fname, len(d.Params)))
+			}
+			var args, sorts []string
+			for i := range n.Args {
+				v := arg(i)
+				switch v.K {
+				case KSlice:
+					et := e.elemType(v)
+					names, srt := elemHeapNames(et)
+					if len(names) != 1 {
+						panic(specErr("%s: opaque %s: slice of composite elements", e.what, fname))
+					}
+					args = append(args, Sel(vc.heapGet(e.st, names[0], arr2Sort(srt[0])), v.Reg), v.Off, v.Len)
+					sorts = append(sorts, arrSort(srt[0]), "Int", "Int")
+				case KBool:
+					args = append(args, v.S)
+					sorts = append(sorts, "Bool")
+				default:
+					args = append(args, v.S)
+					sorts = append(sorts, "Int")
+				}
+			}
+			vc.declareFun("o_"+fname, sorts, "Bool")
+			return BoolV(app("o_"+fname, args...))
 		case "define":
 			if len(d.Params) != len(n.Args) {
 				panic(specErr("%s: %s expects %d arguments", e.what, fname, len(d.Params)))
